@@ -420,7 +420,7 @@ func C11(c *vlib.Ctx) {
 					c.Violation(vlib.Signature{"class": "restart_required_reload_applied"}, "a reload that moves the ingress listener was reported as applied", map[string]any{"running": cfg.Text, "new_file": altText})
 					break
 				}
-				rejectedTokens = append(append(append([]string{}, alt.Global...), alt.Admin...))
+				rejectedTokens = append(append([]string{}, alt.Global...), alt.Admin...)
 				for _, rt := range alt.Routes {
 					rejectedTokens = append(rejectedTokens, rt.Tokens...)
 				}
